@@ -188,7 +188,9 @@ func init() {
 		if !e.branch(And(IGe(t, IntI(0)), ILt(t, IntC(two64)))) {
 			panic(&GoPanic{Msg: "Uint64() out of bounds"})
 		}
-		return Int2BV(64, t)
+		// on the rest of this path the value is known to lie in [0, 2^64): flag a copy of the
+		// term so that later arithmetic and comparisons on the result stay in the integer theory
+		return Int2BV(64, e.knownNat(64, t))
 	})
 	mi("Int64", func(e *Exec, a []Value) Value {
 		t := intOf(a[0])
@@ -381,7 +383,7 @@ func init() {
 		return Ite(ILt(x, IntI(0)), BVI(64, -1), Ite(Eq(x, IntI(0)), BVI(64, 0), BVI(64, 1)))
 	}
 	I[B+"Int64"] = func(e *Exec, fn *ssa.Function, a []Value) Value { return Int2BV(64, bigOf(a[0]).T) }
-	I[B+"Uint64"] = func(e *Exec, fn *ssa.Function, a []Value) Value { return Int2BV(64, bigOf(a[0]).T) }
+	I[B+"Uint64"] = func(e *Exec, fn *ssa.Function, a []Value) Value { return Int2BV(64, e.knownNat(64, bigOf(a[0]).T)) }
 	I[B+"IsUint64"] = func(e *Exec, fn *ssa.Function, a []Value) Value {
 		t := bigOf(a[0]).T
 		return And(IGe(t, IntI(0)), ILt(t, IntC(two64)))
